@@ -49,6 +49,10 @@ func (wp WithdrawFunds) Validate(ctx *action.Context, signedTx action.SignedTx) 
 	if currency.Name != withdrawFunds.WithdrawValue.Currency {
 		return false, errors.Wrap(action.ErrInvalidAmount, withdrawFunds.WithdrawValue.String())
 	}
+	// a negative withdrawal would raise the funder's recorded contribution and debit the beneficiary
+	if !withdrawFunds.WithdrawValue.IsValid(ctx.Currencies) {
+		return false, errors.Wrap(action.ErrInvalidAmount, withdrawFunds.WithdrawValue.String())
+	}
 
 	//Check if fund funder address is valid oneLedger address
 	err = withdrawFunds.Funder.Err()
